@@ -171,6 +171,21 @@ def _mirsym():
         "a column first seen after k rows is NULL for the first k rows; a column not mentioned by a batch is NULL for that batch (push_nulls padding)",
         cbfns, bounds="k in {1,8,9} (quick) / {1,7,8,9,16,17} (thorough); 6 continuation sequences each", spec=sc.ColBufC13())
 
+    from .specs import limits as sl
+    for pid, tag in (("C05", "C05.d"), ("C12", "C12.b")):
+        add(f"{tag}/combined_limit", pid, "mirsym", Q, "QueryTask::combined_limit: limit + offset never panics/wraps for any LIMIT/OFFSET (arithmetic slice, API replay mandatory)",
+            ["engine::execution::query_task::QueryTask::combined_limit"], bounds="all u64 limit x all u64 offset; QueryTask otherwise havoc'd; API replay on a 3-row table",
+            spec=sl.CombinedLimitSpec(), assumptions=["final_pass = None (the same LimitClause arithmetic is used for both phases)"])
+        add(f"{tag}/run_limit", pid, "mirsym", Q, "NormalFormQuery::run: limit + offset before planning never panics (arithmetic slice up to the first planner call)",
+            ["engine::planning::query::NormalFormQuery::run (prefix up to QueryPlanner::default)"], bounds="all u64 limit x offset", spec=sl.RunLimitSpec())
+        add(f"{tag}/output_slice", pid, "mirsym", Q, "QueryTask::convert_to_output_format: count == min(limit, max(len - offset, 0)), no underflow for OFFSET beyond the result (slice up to BatchResult::validate)",
+            ["engine::execution::query_task::QueryTask::convert_to_output_format (prefix)"], bounds="all u64 limit x offset, all usize result lengths; BatchResult::len stubbed as a symbolic usize",
+            spec=sl.OutputFormatSpec(), stubs=["BatchResult::len -> symbolic usize", "BatchResult::validate -> end of slice"])
+    for w in ("get_limit", "get_offset"):
+        add(f"C12.a/{w}", "C12", "mirsym", Q, f"syntax::parser::{w}: converting the LIMIT/OFFSET number token yields Ok or an error value, never a panic",
+            [f"syntax::parser::{w} (from the str::parse::<u64> call to return)"], bounds="str::parse::<u64> modelled by its contract: Ok(any u64) or Err; API replay with a 20-digit literal",
+            spec=sl.ParseNumberSpec(w), stubs=["str::parse::<u64> -> Ok(symbolic) | Err"])
+
 
 _mirsym()
 
